@@ -544,7 +544,9 @@ func execute(r *core.Run, sc *scenario, pols cedar.PolicyIterator, pl plan) outc
 		return nil
 	}
 	r.Count("executions")
+	sim.Budget(30_000_000) // per batch call
 	out.ret = batch.Authorize(ctx, pols, sc.ents, sc.req, cb)
+	sim.Budget(50_000_000)
 	out.endStep = sim.Steps
 	out.cancelled = ctx.Cancelled
 	out.cancelStep = ctx.CancelledAtStep
